@@ -306,6 +306,29 @@ def shift_rule(ctx, facts, cfg):
         ctx.violation(rid, '<floor>', 'shifting bodies', 'found %d bodies that shift section offsets, expected insert_rr and resize_rr' % n, kind='below-floor')
 
 
+
+def cache_rule_for(ctx, facts, cfg, pe, rid, entries, what, floor=1):
+    """the cache clause of C08.b on a given list of operations (shared with C11: a deleted question must not live on in the cache)"""
+    if 'cached' not in [fl['name'] for v in facts.adts.get(PP, {}).get('variants', []) for fl in v['fields']]:
+        ctx.instance(rid, 'ParsedPacket has no `cached` field: nothing to invalidate', ok=True)
+        return
+    flow = PathFlow(facts, CacheAu(facts, pe))
+    n = 0
+    for key in sorted(set(entries)):
+        f = facts.fns[key]
+        exits = flow.summary(key, CacheAu.init)
+        bad = [(q, kind) for (q, kind) in exits if kind in ('Ok', 'ret', 'Some') and q[0] and not q[1]]
+        muts = any(q[0] for (q, kind) in exits)
+        n += 1 if muts else 0
+        ctx.instance(rid, '%s: %s' % (key, 'question cache reset on all successful paths' if muts and not bad else 'no question-affecting event' if not muts else 'MISSING reset'), ok=not bad, site=f['at'])
+        for (q, kind) in bad[:1]:
+            w = flow.witness(key, CacheAu.init, q, kind)
+            ctx.violation(rid, key, 'cached', 'a successful path through %s changes the packet without storing `cached = None`: %s' % (key.split('::')[-1], what),
+                          site=f['at'], path=flow.describe_path(key, w), config=cfg)
+    if n < floor:
+        ctx.violation(rid, '<floor>', 'operations with a cache reset', 'found %d packet-changing operations among %s, expected at least %d' % (n, sorted(set(entries))[:3], floor), kind='below-floor')
+
+
 # ---------------------------------------------------------------------------
 def cache_rule(ctx, facts, cfg, pe):
     rid = 'C08.b'
